@@ -250,9 +250,17 @@ impl Channel {
         chan.busy = false;
         chan.transmission_finish_time = SimTime::ZERO;
 
-        if let Some((msg, next_gate)) = chan.buffer.dequeue() {
+        // A message whose transmission time rounds to zero does not make the
+        // channel busy again (and schedules no further unbusy notification),
+        // so keep sending queued messages until the channel is busy or the
+        // queue is empty.
+        while let Some((msg, next_gate)) = chan.buffer.dequeue() {
             drop(chan);
-            self.send_message(msg, next_gate, sink);
+            self.clone().send_message(msg, next_gate, sink);
+            chan = self.inner.write().unwrap();
+            if chan.busy {
+                break;
+            }
         }
     }
 }
